@@ -25,13 +25,14 @@ MANIFEST = {
     "note": "halo=0; tolerance 1e-9 of field maximum; Nyquist filter applied to both sides (without it the unchanged tree differs by ~3e-3, so the filter is necessary and sufficient).",
 }
 
-SCALES = (1e-2, 0.5, 3.7, 1e3)
+SCALES = (1e-9, 1e-6, 1e-2, 0.5, 3.7, 1e3, 1e7)  # from laboratory / light-wind twins to planetary ones: no dimensional constant may enter
 
 
 def configs(tier):
     profs = ("const", "most_aniso", "mostm_s") if tier == "quick" else sl.PROFILE_SETS
     grids = sl.GRIDS[:1] if tier == "quick" else sl.GRIDS
-    modes = ("full", [4, 4]) if tier == "quick" else ("full", [4, 4], [6, 4], [64, 64])
+    # [4, 64] / [64, 4]: a request exceeding the grid in ONE direction only (documented answer: all modes in both)
+    modes = ("full", [4, 4], [4, 64], [64, 4]) if tier == "quick" else ("full", [4, 4], [6, 4], [64, 64], [4, 64], [64, 4])
     for p, g, m, fp in itertools.product(profs, grids, modes, (False, True)):
         yield {"prof": p, "grid": g[0], "dom": g[1], "modes": m, "footprint": fp}
 
@@ -46,6 +47,7 @@ def case_symmetry(case):
     u, vv, Kx, Ky, Kz = prof
     levels = [2, 4]
     modes = sl.resolve_modes(case["modes"], nx, ny, dom, 0.0)
+    eff = sl.effective_modes(modes, nx, ny)
     sl.pollute(nx, ny, dx, dy)
     sl.pollute(ny, nx, dy, dx)
     fp = case["footprint"]
@@ -65,9 +67,9 @@ def case_symmetry(case):
 
     def cmp(label, got, want, what):
         if label == "transpose":
-            got, want = sl.drop_cutoff(got, modes[1], modes[0]), sl.drop_cutoff(want, modes[1], modes[0])
+            got, want = sl.drop_cutoff(got, eff[1], eff[0]), sl.drop_cutoff(want, eff[1], eff[0])
         else:
-            got, want = sl.drop_cutoff(got, modes[0], modes[1]), sl.drop_cutoff(want, modes[0], modes[1])
+            got, want = sl.drop_cutoff(got, eff[0], eff[1]), sl.drop_cutoff(want, eff[0], eff[1])
         e = sl.relerr(got, want, max(np.abs(want).max(), 1e-300))
         worst[0] = max(worst[0], e)
         if not e <= tol:
